@@ -24,7 +24,7 @@ LEVEL = "fault_enumeration"
 RULE = (
     "a case = one seed document with one fault (site x kind, payload position x kind, or truncation offset), run "
     "through extract_text, extract_pages and extract_text_to_fp(xml) under a step budget; the fault set is enumerated "
-    "from the 8 seed documents of sim/seeds.py and does not depend on VERIF_SEED (quick: every k-th fault with a "
+    "from the 11 seed documents of sim/seeds.py and does not depend on VERIF_SEED (quick: every k-th fault with a "
     "seed-chosen phase, all truncation points of two seed documents; thorough: all). distinct = distinct faulted "
     "byte strings; non-trivial = the faulted bytes differ from the seed document."
 )
